@@ -11,7 +11,7 @@
 From Coq Require Import List NArith.
 From Common Require Import Outcome.
 From Grandpa Require Import Tree Votes RoundSpec.
-From C21 Require Import Model Spec Proofs Proofs2.
+From C21 Require Import Model Spec Proofs Proofs2 Proofs3.
 Import ListNotations.
 
 (* ---- the vote filter -------------------------------------------------------------------- *)
@@ -105,6 +105,40 @@ Theorem C21_precommit_cap_prefix_refuted :
   determine_precommit false e st = Ok (mkGV 3 3%N) /\ ancb (e_tree e) 3 6 = false.
 Proof. vm_compute. repeat split; reflexivity. Qed.
 Print Assumptions C21_precommit_cap_prefix_refuted.
+
+(* ---- from the received votes ------------------------------------------------------------ *)
+(* After any history of events -- vote messages of every kind in any order, and the node's own
+   vote of the stage cast once -- the stored votes stand for exactly the set of received votes the
+   property allows to be counted ([received]: well signed, current set and round, from an
+   authority other than the node, known block with its number, descending from the finalised head;
+   plus the node's own vote): the same voters equivocate and every voter supports the same blocks. *)
+Theorem C21_state_abstraction : forall e head sg evs,
+  (forall ev, In ev evs -> own_ok e head ev) -> own_once sg evs ->
+  let st := run_events e (init_state head) evs in
+  wf e st /\ s_head st = head /\
+  (forall v, equivocates (spec_votes st sg) v = equivocates (received e head sg evs) v) /\
+  (forall v b, supports (e_tree e) (spec_votes st sg) v b = supports (e_tree e) (received e head sg evs) v b).
+Proof. exact state_abstraction. Qed.
+Print Assumptions C21_state_abstraction.
+
+(* End to end, the sentence of the property: for every block tree, authority set and history of
+   received votes, if some block has more than two thirds of the (counted) prevotes, the node
+   pre-commits to the highest such block, capped at a pending authority change. *)
+Theorem C21_precommit_from_received : forall e head evs g,
+  0 < e_voters e -> in_tree (e_tree e) head ->
+  (forall ev, In ev evs -> own_ok e head ev) -> own_once Prevote evs ->
+  let R := received e head Prevote evs in
+  tolerant (unit_ws e) R = true -> ghost (e_tree e) (unit_ws e) R = Some g ->
+  let st := run_events e (init_state head) evs in
+  prevoted_block e st = Ok (mkGV g (number e g)) /\
+  exists tg, anc (e_tree e) tg g /\ determine_precommit true e st = Ok (mkGV tg (number e tg)) /\
+    tg = match e_next_change e with
+         | Some nc => if (nc <? number e g)%N
+                      then match ancestor_at e g nc with Some a => a | None => g end else g
+         | None => g
+         end.
+Proof. exact precommit_from_received. Qed.
+Print Assumptions C21_precommit_from_received.
 
 (* ---- finalisation ----------------------------------------------------------------------- *)
 (* attemptToFinalize finalises only a block with more than 2/3 of the precommits that is the
